@@ -323,4 +323,30 @@ theorem execute_debug_jobs_irrelevant {ρ : Type} (optimize : Obj → Obj → St
 example : (Src.multitask_execute (fun o t m _ k => (o.idx, t.idx, m, k)) (objsFrom 0 ["A", "B"]) (objsFrom 0 ["t"]) none none false [] 2 2 true).map (fun r => r.2.length) = .ok 2 := by
   decide
 
+
+/-- the `modes` argument of the constructor as the model's `ModesArg` (a non-tuple is outside the translation: the typing declares a tuple or `None`) -/
+def modesArg : Option (List String) → ModesArg String
+  | none => .none
+  | some vs => .tuple vs
+
+/-- **`Multitask.__init__`** (called without extra keyword arguments): `_modes` is the model's `construct` — `__check_input__` with `n = len(algorithms)`,
+`m = len(tasks)`, then `__check_modes__` — and the instance starts with `_df2 = []`, `_debug = None`, whatever the attributes held before -/
+theorem init_eq {ρ : Type} (a0 t0 : List Obj) (n0 m0 : Int) (md0 : Option (List (List String))) (w0 : Option Int) (d0 : Option Bool)
+    (df0 : List (List (String × List (RunDict ρ)))) (algs tasks : List Obj) (modes : Option (List String)) (w : Option Int) :
+    Src.multitask_init (ρ := ρ) a0 t0 n0 m0 md0 w0 d0 df0 algs tasks modes w
+      = (construct algs.length tasks.length (modesArg modes)).map
+          (fun t => (algs, tasks, (algs.length : Int), (tasks.length : Int), t, w, none, [])) := by
+  unfold Src.multitask_init construct
+  simp only [len_eq]
+  cases modes with
+  | none =>
+    simp [Src.check_input, modesArg, checkInput, check_modes_eq, checkModes, Except.map, bind, Except.bind, pure, Except.pure]
+  | some vs =>
+    simp only [check_input_eq, modesArg, check_modes_eq]
+    cases checkInput algs.length tasks.length (ModesArg.tuple vs) with
+    | error e => rfl
+    | ok t =>
+      simp only [except_ok_bind]
+      cases checkModes t <;> rfl
+
 end R20
